@@ -18,16 +18,19 @@ CloseTarget(n)  == Tail(n)
 \* names for which the property text does not say what "closing tag /name" means
 OddName(n) == Len(n) >= 2 /\ n[1] = SLASH /\ n[2] = SLASH
 
+\* index of the innermost open element named n, 0 if none (top of the stack = end of the sequence)
+RECURSIVE TopMatch(_, _, _)
+TopMatch(stack, p, n) == IF p = 0 THEN 0 ELSE IF stack[p][1] = n THEN p ELSE TopMatch(stack, p - 1, n)
+
 RECURSIVE PairScan(_, _, _, _)
 PairScan(tg, i, stack, acc) ==
   IF i > Len(tg) THEN acc
   ELSE LET t == tg[i] IN
        IF t.k = 0 \/ t.cls # "ok" THEN PairScan(tg, i + 1, stack, acc)
        ELSE IF IsCloserName(t.name)
-            THEN LET M == {p \in DOMAIN stack : stack[p][1] = CloseTarget(t.name)} IN
-                 IF M = {} THEN PairScan(tg, i + 1, stack, acc)
-                 ELSE LET j == CHOOSE p \in M : \A q \in M : q <= p IN
-                      PairScan(tg, i + 1, SubSeq(stack, 1, j - 1), acc \cup {<<stack[j][2], i>>})
+            THEN LET j == TopMatch(stack, Len(stack), CloseTarget(t.name)) IN
+                 IF j = 0 THEN PairScan(tg, i + 1, stack, acc)
+                 ELSE PairScan(tg, i + 1, SubSeq(stack, 1, j - 1), acc \cup {<<stack[j][2], i>>})
             ELSE PairScan(tg, i + 1, Append(stack, <<t.name, i>>), acc)
 
 StackPairs(tg) == PairScan(tg, 1, <<>>, {})
